@@ -807,6 +807,15 @@ def run(ctx):
                 sum(exp["expect"]["sub"].values()), sum(exp["expect"]["prod"].values()))):
             ctx.disagree("reaction-aliasing", case, got, r)
 
+    # ---------------------------------------------------------------- 6. refused in-place edits of the units system
+    for i in range(ctx.n(300, 4000)):
+        case = gen_refused_edit(rng)
+        fails, obs = run_refused_edit(case)
+        ctx.case(("refused-edit", case["target"], case["component"], str(case["bad"]), case["via"], tuple(case["sys"])), nontrivial=True)
+        ctx.count("refused_edit_" + case["target"])
+        for key, what in fails:
+            ctx.violation(key, "%s.units_system: %s" % (case["target"], what), case, impl=obs, expected="exception; units system and behaviour unchanged")
+
     ctx.notes.append("no partial theorem left: parse_render (any blanks, no hypothesis on the rendered text), print_parse (all coefficients incl. "
                      "zero first terms, every label list), split_spec (single values and per-environment dictionaries) are proved in full; "
                      "hypothesis of parse_render / print_parse: labels are words for str.split() without '+' and '->' (LabelWord)")
@@ -889,6 +898,72 @@ def run_alias(case):
     return out
 
 
+# ---------------------------------------------------------------------------------------------
+# a refused in-place edit of a units system leaves the object as it was (then the normal oracles apply)
+# ---------------------------------------------------------------------------------------------
+BAD_COMPONENT = {"space": ["parsec", "M", "s", "", 5, None], "time": ["sec", "minute", "m", "", 3.0, None],
+                 "quantity": ["molecules", "M", "g", "", 1, None]}
+
+
+def gen_refused_edit(rng):
+    target = rng.choice(["reaction", "reaction", "species", "network"])
+    comp = rng.choice(["space", "time", "quantity"])
+    sys = rand_sys(rng)
+    c = simple_case(rng, sys, ["A", "B", "C"])
+    c["kf"], c["kr"] = {"num": 8.0, "ntype": "int"}, {"num": 2.0, "ntype": "int"}
+    return {"kind": "refused-edit", "target": target, "component": comp, "bad": rng.choice(BAD_COMPONENT[comp]),
+            "via": rng.choice(["attribute", "item"]), "sys": list(sys), "reaction": c, "first_k": [rand_num(rng), rand_num(rng)]}
+
+
+def run_refused_edit(case):
+    """returns (failures, observations): failures = [(key, what)]"""
+    from strengths.rdnetwork import Reaction, Species, RDNetwork
+    from strengths.units import UnitsSystem
+    sys, comp, bad = case["sys"], case["component"], case["bad"]
+    c = case["reaction"]
+    fails, obs = [], {}
+    if case["target"] == "reaction":
+        obj = Reaction(c["eq"], kf=typed_number(case["first_k"][0]), kr=typed_number(case["first_k"][1]), units_system=UnitsSystem(*sys))
+    elif case["target"] == "species":
+        obj = Species("A", D=1.0, density=2.0, units_system=UnitsSystem(*sys))
+    else:
+        obj = RDNetwork([Species("A"), Species("B"), Species("C")], [Reaction(c["eq"])], units_system=UnitsSystem(*sys))
+    us = obj.units_system
+    try:
+        if case["via"] == "attribute":
+            setattr(us, comp, bad)
+        else:
+            us[comp] = bad
+        fails.append(("refused-edit:accepted", "units_system.%s = %r was accepted" % (comp, bad)))
+    except Exception as ex:  # noqa
+        obs["exc"] = type(ex).__name__
+    now = [obj.units_system.space, obj.units_system.time, obj.units_system.quantity]
+    obs["units_system_after"] = now
+    if now != list(sys):
+        fails.append(("refused-edit:stored", "the refused units_system.%s = %r is stored: the units system is now %r" % (comp, bad, now)))
+    # the object must go on behaving as one in its original units system
+    if case["target"] == "reaction":
+        try:
+            obj.set_k(8, 2)
+            got = observe_all(obj, c["labels"], UnitsSystem(*sys))
+        except Exception as ex:  # noqa
+            got = {"error": type(ex).__name__}
+        obs["after_set_k"] = {k: got.get(k) for k in ("error", "kf", "kr", "K", "sys")}
+        fails += [("refused-edit:" + k, "after the refused edit and set_k(8, 2): " + w) for k, w, _ in oracle(c, got)]
+    elif case["target"] == "species":
+        try:
+            obj.D = 3
+            obj.density = 2
+            got = {"D": obs_uval(obj.D), "density": obs_uval(obj.density)}
+        except Exception as ex:  # noqa
+            got = {"error": type(ex).__name__}
+        obs["after_set"] = got
+        want = {"D": {"v": 3.0, "sys": list(sys), "dim": [2, -1, 0]}, "density": {"v": 2.0, "sys": list(sys), "dim": [-3, 0, 1]}}
+        if "error" in got or not same_uval(got["D"], want["D"]) or not same_uval(got["density"], want["density"]):
+            fails.append(("refused-edit:species-units", "after the refused edit, bare D / density are not in the species' units system"))
+    return fails, obs
+
+
 def net_invalid(desc):
     """Spec: duplicate species label, duplicate reaction label, or undeclared species (independent of the code)"""
     sp = desc["species"]
@@ -928,6 +1003,9 @@ def replay(ctx, rec):
         got = run_impl(case)
         fails = oracle(case, got)
         return (not fails), {"case": case, "impl": got, "failures": [[k, w] for k, w, _ in fails]}
+    if kind == "refused-edit":
+        fails, obs = run_refused_edit(case)
+        return (not fails), {"case": case, "impl": obs, "failures": fails}
     if kind == "aliasing":
         fails = []
         outs = run_alias(case)
